@@ -39,6 +39,7 @@ func genC02(seed uint64, tier string) *plan.Plan {
 	pl.Cfg["v6"] = int64(r.IntN(2))
 	refresh := time.Duration(pl.Cfg["refresh"]) * time.Second
 	nT := 1 + r.IntN(3)
+	nT0 := nT // the templates announced first (later ones may not exist when an inserted op runs)
 	sizes := make([]int, nT)
 	for i := 0; i < nT; i++ {
 		n := 1 + r.IntN(8)
@@ -133,6 +134,23 @@ func genC02(seed uint64, tier string) *plan.Plan {
 		// a collecting process in the same program has just been sent, by some other vendor's exporter,
 		// a template that announces fixed lengths for variable-length elements (see c01.go)
 		pl.Cfg["foreign"] = int64(1 + r.IntN(3))
+	}
+	if udp {
+		// Transient write errors in mid-session (a datagram socket reports a refused destination on a
+		// later write and stays usable): nothing of the failed call reaches the wire, and whatever is
+		// sent afterwards is a well-formed message of its own. A stream of its own keeps older plans as they were.
+		r2 := rand.New(rand.NewPCG(seed, 0xc02f))
+		if r2.IntN(3) == 0 {
+			for k := 1 + r2.IntN(3); k > 0; k-- {
+				at := nT0 + r2.IntN(len(pl.Ops)-nT0+1)
+				op := plan.Op{K: "data", A: int64(r2.IntN(nT0)), B: int64(1 + r2.IntN(5)), C: int64(r2.Uint64() >> 1), D: []int64{0, 20, 300}[r2.IntN(3)]}
+				if r2.IntN(3) == 0 {
+					op = plan.Op{K: "tmplagain", A: int64(r2.IntN(nT0))}
+				}
+				ins := []plan.Op{{K: "wfault", A: 3}, op, {K: "data", A: int64(r2.IntN(nT0)), B: int64(1 + r2.IntN(3)), C: int64(r2.Uint64() >> 1), D: 20}}
+				pl.Ops = append(pl.Ops[:at], append(ins, pl.Ops[at:]...)...)
+			}
+		}
 	}
 	genSchedule(r, pl, 2, 60*len(pl.Ops))
 	return pl
